@@ -307,6 +307,23 @@ func cmdRun(args []string) {
 	preSite := map[int]bool{}
 	runHash := uint64(14695981039346656037)
 	var refQueue []*refItem
+	// flushRef sends the sampled operations to a fresh process (O1x)
+	flushRef := func() {
+		for _, it := range refCheck(refQueue) {
+			if st.Violations >= *maxViol {
+				break
+			}
+			st.Violations++
+			st.DetViolations++
+			v := Violation{Prop: "C14", Class: "inconsistent-result", Task: it.task, Op: it.idx,
+				Detail: fmt.Sprintf("%s gave %q under the simulated schedule and something else in a fresh process", it.key, trunc(it.res)), NeedsRun: -1}
+			rs := mixSeed(*seed, uint64(*wk), uint64(it.run))
+			pf := planFile{Prop: *prop, Class: v.Class, Plans: []*Plan{genPlanOpt(rs, *prop, *cold)}}
+			emit(w, violationMsg{Type: "violation", Worker: *wk, Run: it.run, Seed: rs, BaseSeed: *seed, Cold: *cold, V: v, File: pf})
+			break // one per batch is enough
+		}
+		refQueue = refQueue[:0]
+	}
 	const capSet = 1 << 20
 	for i := int64(0); ; i++ {
 		if *runs > 0 && i >= *runs {
@@ -365,11 +382,7 @@ func cmdRun(args []string) {
 			}
 			last := (*runs > 0 && i+1 >= *runs)
 			if len(refQueue) >= 192 || last {
-				for _, it := range refCheck(refQueue) {
-					viol = append(viol, Violation{Prop: "C14", Class: "inconsistent-result", Task: it.task, Op: it.idx,
-						Detail: fmt.Sprintf("%s gave %q under the simulated schedule and something else in a fresh process", it.key, trunc(it.res)), NeedsRun: it.run})
-				}
-				refQueue = refQueue[:0]
+				flushRef()
 			}
 		}
 		if len(viol) > 0 {
@@ -382,9 +395,7 @@ func cmdRun(args []string) {
 			if v.NeedsRun >= 0 && int64(v.NeedsRun) != i {
 				pf.Plans = append(pf.Plans, genPlanOpt(mixSeed(*seed, uint64(*wk), uint64(v.NeedsRun)), *prop, *cold))
 			}
-			if !strings.Contains(v.Detail, "in a fresh process") || len(pf.Plans) == 0 {
-				pf.Plans = append(pf.Plans, p)
-			}
+			pf.Plans = append(pf.Plans, p)
 			emit(w, violationMsg{Type: "violation", Worker: *wk, Run: int(i), Seed: s, BaseSeed: *seed, Cold: *cold, V: v, File: pf})
 			if st.Violations >= *maxViol {
 				break
@@ -392,15 +403,7 @@ func cmdRun(args []string) {
 		}
 	}
 	if *prop == "C14" && len(refQueue) > 0 && st.Violations < *maxViol {
-		for _, it := range refCheck(refQueue) {
-			st.Violations++
-			st.DetViolations++
-			v := Violation{Prop: "C14", Class: "inconsistent-result", Task: it.task, Op: it.idx,
-				Detail: fmt.Sprintf("%s gave %q under the simulated schedule and something else in a fresh process", it.key, trunc(it.res)), NeedsRun: it.run}
-			pf := planFile{Prop: *prop, Class: v.Class, Plans: []*Plan{genPlanOpt(mixSeed(*seed, uint64(*wk), uint64(it.run)), *prop, *cold)}}
-			emit(w, violationMsg{Type: "violation", Worker: *wk, Run: it.run, Seed: mixSeed(*seed, uint64(*wk), uint64(it.run)), BaseSeed: *seed, Cold: *cold, V: v, File: pf})
-			break
-		}
+		flushRef()
 	}
 	st.Wall = time.Since(start).Seconds()
 	st.RefCompared = refCompared
@@ -611,12 +614,49 @@ func cmdMin(args []string) {
 	in := fs.String("in", "", "")
 	out := fs.String("out", "", "")
 	budget := fs.Float64("secs", 60, "")
+	regen := fs.String("regen", "", "prop,class,seed,worker,upto,cold: regenerate the worker's plans 0..upto instead of reading a file")
 	fs.Parse(args)
-	pf := readPlanFile(*in)
+	var pf *planFile
+	if *regen != "" {
+		var prop, class string
+		var seed uint64
+		var wk, upto, cold int
+		if _, err := fmt.Sscanf(strings.ReplaceAll(*regen, ",", " "), "%s %s %d %d %d %d", &prop, &class, &seed, &wk, &upto, &cold); err != nil {
+			fatal("regen: %v", err)
+		}
+		pf = &planFile{Prop: prop, Class: class}
+		for i := 0; i <= upto; i++ {
+			pf.Plans = append(pf.Plans, genPlanOpt(mixSeed(seed, uint64(wk), uint64(i)), prop, cold != 0))
+		}
+	} else {
+		pf = readPlanFile(*in)
+	}
 	m := &minimiser{class: pf.Class, prop: pf.Prop, tmp: *out + ".cand", deadline: time.Now().Add(time.Duration(*budget * float64(time.Second)))}
 	defer os.Remove(m.tmp)
 	plans := pf.Plans
-	if !m.fails(plans) {
+	if *regen != "" {
+		// which earlier runs of that process matter? grow a suffix of them
+		// (1, 2, 4, ... runs before the failing one) until the failure shows
+		target := plans[len(plans)-1]
+		found := false
+		for k := 1; ; k *= 2 {
+			if k > len(plans)-1 {
+				k = len(plans) - 1
+			}
+			cand := append(append([]*Plan{}, plans[len(plans)-1-k:len(plans)-1]...), target)
+			if m.fails(cand) {
+				plans, found = cand, true
+				break
+			}
+			if k == len(plans)-1 || time.Now().After(m.deadline) {
+				break
+			}
+		}
+		if !found {
+			fmt.Println(`{"type":"min","reproduced":false}`)
+			os.Exit(3)
+		}
+	} else if !m.fails(plans) {
 		// not reproducible in a fresh process as it stands
 		fmt.Println(`{"type":"min","reproduced":false}`)
 		os.Exit(3)
